@@ -216,6 +216,8 @@ def mutate(data: bytes, muts) -> bytes:
             opens = [i for i, ch in enumerate(data) if ch in b"([{"]
             if opens:
                 data = data[: opens[int(a * (len(opens) - 1))] + 1 + int(b * 12)]
+        elif kind == "ctrl":  # one control byte that is valid UTF-8 but no source character (NUL, FF, SUB, ESC, DEL, VT)
+            data = data[:pos] + [b"\x00", b"\x0c", b"\x1a", b"\x1b", b"\x7f", b"\x0b", b"\x00\x00"][int(b * 7) % 7] + data[pos:]
         elif kind == "unclose":  # drop the first line that only closes a bracket
             lines = data.split(b"\n")
             for i, l in enumerate(lines):
@@ -268,7 +270,7 @@ def mutate(data: bytes, muts) -> bytes:
     return data
 
 
-MUT_KINDS = ["truncate", "truncate-early", "truncate-at-open", "unclose", "delete", "dup", "swap", "insert", "insert", "badutf8", "overwrite", "crlf", "mixed", "bom", "utf16", "delline", "dedent", "nonl"]
+MUT_KINDS = ["truncate", "truncate-early", "truncate-at-open", "unclose", "ctrl", "ctrl", "delete", "dup", "swap", "insert", "insert", "badutf8", "overwrite", "crlf", "mixed", "bom", "utf16", "delline", "dedent", "nonl"]
 
 
 def offender_bytes(case) -> bytes:
@@ -465,7 +467,7 @@ def raws(draw):
 
 @st.composite
 def blanks(draw):
-    text = draw(st.sampled_from(["", " ", "\n", "\n\n\n", "\t\n  \n", "\r\n", "﻿", "\x0c", "　\n", "#", "//", "/*", '"""', "#!/usr/bin/env python3\n"]))
+    text = draw(st.sampled_from(["", " ", "\n", "\n\n\n", "\t\n  \n", "\r\n", "﻿", "\x0c", "　\n", "#", "//", "/*", '"""', "#!/usr/bin/env python3\n", "\x00", "x = 1\x00\n", "def f():\n    return 1\x00\n", "\x1a"]))
     return {"kind": "blank", "text": text, "ext": draw(st.sampled_from(EXTS)), "rot": draw(st.integers(0, 19)), "all_cmds": draw(st.integers(0, 3)) == 0}
 
 
